@@ -83,8 +83,10 @@ pub fn unify(state: &mut TypeCheckerState, watchdog: &DynWatchdog) -> Result<()>
                 Err(Error::StoppedByWatchdog).locate(location)?;
             }
 
-            // If there are no inferences for this type variable, go to the next one.
+            // If there are no inferences for this type variable, go to the next one. This is still an
+            // iteration of the loop, so it has to count towards the polling interval.
             if inferences.is_empty() {
+                counter += 1;
                 continue;
             }
 
